@@ -7,8 +7,14 @@ the code the translator distinguishes (Generated/LifecycleShape.lean): `fin = fa
 `finally` clause.  The full statement "no temporary file is left behind" (`NoTempLeft`) is FALSE for
 `fin = false` (refuted by the `CompileError` path; proved under the guard that makes it true) and TRUE
 for `fin = true`; `leak_iff` says exactly which fault sequences leak.
-Part B: the statistics file (`timingData`, `renderObj`) for timing files, module lists and numbers
-of any size.
+Part B: the statistics file (`timingData rs`, `renderObj`) for timing files, module lists and numbers
+of any size, for the two shapes of the line parse the translator distinguishes by probing
+(`Generated.timingRsplit`): `rs = false` — refurb 2.0.0, `module, micro_seconds = line.split()` — and
+`rs = true` — `line.rsplit(maxsplit=1)`.  Shape, keys, order, values and text of the file are proved for
+both (`stats_shape`, `stats_values`, `text_printable_ascii`, …).  The full statement "every line mypy
+writes is cut into its module name and its count" (`MypyLinesParse`) is FALSE for `rs = false` (refuted
+by the module `a b`; proved for names without whitespace) and TRUE for `rs = true`, from which
+`mypy_file_never_raises` follows for build graphs of any size.
 
 All statements are about the model; the correspondence run (harness/props/c18.py) ties `run` to an
 instrumented `run_refurb` and `timingJson` to `output_timing_stats`, and the file-system snapshots
@@ -559,20 +565,20 @@ theorem ties_keep_insertion_order (d : List (Str × Int)) (v : Int) :
 
 /-! ### parsing mypy's timing file -/
 
-theorem parseLines_ok_iff (ls : List Str) (kvs : List (Str × Int)) :
-    parseLines ls = .ok kvs ↔ ls.map parseLine = kvs.map Except.ok := by
+theorem parseLines_ok_iff (rs : Bool) (ls : List Str) (kvs : List (Str × Int)) :
+    parseLines rs ls = .ok kvs ↔ ls.map (parseLineOf rs) = kvs.map Except.ok := by
   induction ls generalizing kvs with
   | nil => cases kvs <;> simp [parseLines]
   | cons l ls ih =>
-    cases hl : parseLine l with
+    cases hl : parseLineOf rs l with
     | error e => cases kvs <;> simp [parseLines, hl]
     | ok kv =>
-      cases hr : parseLines ls with
+      cases hr : parseLines rs ls with
       | error e =>
         cases kvs with
         | nil => simp [parseLines, hl, hr]
         | cons kv' kvs' =>
-          have : ¬ ls.map parseLine = kvs'.map Except.ok := fun h => by
+          have : ¬ ls.map (parseLineOf rs) = kvs'.map Except.ok := fun h => by
             have := (ih kvs').mpr h; rw [hr] at this; cases this
           simp [parseLines, hl, hr, this]
       | ok kvs0 =>
@@ -589,59 +595,60 @@ theorem parseLines_ok_iff (ls : List Str) (kvs : List (Str × Int)) :
             rw [hr] at this
             exact Except.ok.inj this
 
-/-- `output_timing_stats` raises `ValueError` exactly when some line is not `module integer`. -/
-theorem parseLines_error_iff (ls : List Str) :
-    parseLines ls = .error .valueError ↔ ∃ l ∈ ls, parseLine l = .error .valueError := by
+/-- `output_timing_stats` raises `ValueError` exactly when some line is not `module integer` (in the
+    reading of "module" of the shape `rs`). -/
+theorem parseLines_error_iff (rs : Bool) (ls : List Str) :
+    parseLines rs ls = .error .valueError ↔ ∃ l ∈ ls, parseLineOf rs l = .error .valueError := by
   induction ls with
   | nil => simp [parseLines]
   | cons l ls ih =>
-    cases hl : parseLine l with
+    cases hl : parseLineOf rs l with
     | error e => cases e; simp [parseLines, hl]
     | ok kv =>
-      cases hr : parseLines ls with
+      cases hr : parseLines rs ls with
       | error e =>
         cases e
         have := ih.mp hr
         simp [parseLines, hl, hr, this]
       | ok kvs =>
-        have : ¬ ∃ l ∈ ls, parseLine l = .error .valueError := fun h => by
+        have : ¬ ∃ l ∈ ls, parseLineOf rs l = .error .valueError := fun h => by
           have := ih.mpr h; rw [hr] at this; cases this
         simp [parseLines, hl, hr]
         intro a ha
         exact fun h => this ⟨a, ha, h⟩
 
-theorem timingJson_error_iff (content : Str) (total : Int) (refurb : List (Str × Int)) :
-    timingJson content total refurb = .error .valueError ↔
-      ∃ l ∈ pySplitlines content, parseLine l = .error .valueError := by
+theorem timingJson_error_iff (rs : Bool) (content : Str) (total : Int) (refurb : List (Str × Int)) :
+    timingJson rs content total refurb = .error .valueError ↔
+      ∃ l ∈ pySplitlines content, parseLineOf rs l = .error .valueError := by
   rw [← parseLines_error_iff]
   unfold timingJson timingData
-  cases h : parseLines (pySplitlines content) with
+  cases h : parseLines rs (pySplitlines content) with
   | error e => cases e; simp
   | ok kvs => simp
 
 /-- the outcome `otsOf` computes is `ok` iff the temp file is readable, every line parses and FILE is writable -/
-theorem otsOf_ok_iff (readable writable : Bool) (content : Str) :
-    otsOf readable content writable = .ok ↔
-      readable = true ∧ writable = true ∧ ∀ l ∈ pySplitlines content, ∃ kv, parseLine l = .ok kv := by
+theorem otsOf_ok_iff (rs : Bool) (readable writable : Bool) (content : Str) :
+    otsOf rs readable content writable = .ok ↔
+      readable = true ∧ writable = true ∧ ∀ l ∈ pySplitlines content, ∃ kv, parseLineOf rs l = .ok kv := by
   unfold otsOf
   cases readable
   · simp
-  · cases h : parseLines (pySplitlines content) with
+  · cases h : parseLines rs (pySplitlines content) with
     | error e =>
       cases e
-      obtain ⟨l, hl, he⟩ := (parseLines_error_iff _).mp h
+      obtain ⟨l, hl, he⟩ := (parseLines_error_iff _ _).mp h
       simp only [Bool.not_true, Bool.false_eq_true, if_false, true_and]
       constructor
       · intro h'; cases h'
       · intro h'; obtain ⟨kv, hkv⟩ := h'.2 l hl; rw [he] at hkv; cases hkv
     | ok kvs =>
-      have hall : ∀ l ∈ pySplitlines content, ∃ kv, parseLine l = .ok kv := by
+      have hall : ∀ l ∈ pySplitlines content, ∃ kv, parseLineOf rs l = .ok kv := by
         intro l hl
-        cases hp : parseLine l with
+        cases hp : parseLineOf rs l with
         | ok kv => exact ⟨kv, rfl⟩
         | error e =>
           cases e
-          have := (parseLines_error_iff _).mpr ⟨l, hl, hp⟩
+          have := (parseLines_error_iff _ _).mpr ⟨l, hl, hp⟩
           rw [h] at this; cases this
       cases writable
       · simp
@@ -651,7 +658,7 @@ theorem otsOf_ok_iff (readable writable : Bool) (content : Str) :
 /-! ### the shape of the file -/
 
 /-- **stats_shape.**  Whenever `output_timing_stats` gets as far as writing, for a timing file, a total
-    and a visiting loop of ANY size:
+    and a visiting loop of ANY size, and for BOTH shapes of the line parse (`rs`):
     1. the object has exactly the three documented keys, in this order; the first value is an integer
        and the other two are dicts from module names to integers (in the model by typing: `V.int`,
        `V.dict : List (Str × Int)`; on the implementation by the oracle's `isinstance(v, int)`);
@@ -660,16 +667,16 @@ theorem otsOf_ok_iff (readable writable : Bool) (content : Str) :
     4. no key occurs twice in a section;
     5. each section is in non-increasing order of value;
     6. the total is passed through. -/
-theorem stats_shape (content : Str) (total : Int) (refurb : List (Str × Int)) (st : Stats)
-    (h : timingData content total refurb = .ok st) :
+theorem stats_shape (rs : Bool) (content : Str) (total : Int) (refurb : List (Str × Int)) (st : Stats)
+    (h : timingData rs content total refurb = .ok st) :
     st.data.map Prod.fst = [keyTotal, keyMypy, keyRefurb] ∧
     st.data = [(keyTotal, .int total), (keyMypy, .dict st.mypy), (keyRefurb, .dict st.refurb)] ∧
     (∀ m ∈ refurb.map Prod.fst, m ∈ keys st.refurb) ∧
-    (∀ l ∈ pySplitlines content, ∀ m v, parseLine l = .ok (m, v) → m ∈ keys st.mypy) ∧
+    (∀ l ∈ pySplitlines content, ∀ m v, parseLineOf rs l = .ok (m, v) → m ∈ keys st.mypy) ∧
     (keys st.mypy).Nodup ∧ (keys st.refurb).Nodup ∧
     NonIncreasing st.mypy ∧ NonIncreasing st.refurb := by
   unfold timingData at h
-  cases hp : parseLines (pySplitlines content) with
+  cases hp : parseLines rs (pySplitlines content) with
   | error e => rw [hp] at h; cases h
   | ok kvs =>
     rw [hp] at h
@@ -681,8 +688,8 @@ theorem stats_shape (content : Str) (total : Int) (refurb : List (Str × Int)) (
     · intro l hl m v hlv
       apply (mem_keys_byValueDesc _ _).mpr
       apply (mem_keys_dictOf _ _).mpr
-      have hmap := (parseLines_ok_iff _ _).mp hp
-      have : Except.ok (m, v) ∈ (pySplitlines content).map parseLine :=
+      have hmap := (parseLines_ok_iff _ _ _).mp hp
+      have : Except.ok (m, v) ∈ (pySplitlines content).map (parseLineOf rs) :=
         List.mem_map.mpr ⟨l, hl, hlv⟩
       rw [hmap] at this
       obtain ⟨kv, hkv, he⟩ := List.mem_map.mp this
@@ -693,12 +700,12 @@ theorem stats_shape (content : Str) (total : Int) (refurb : List (Str × Int)) (
 
 /-- the value reported for a module is the one the dict held before sorting (for the refurb section: the
     last `int(elapsed * 1000)` assigned to it; for the mypy section: `microseconds // 1000` of its last line) -/
-theorem stats_values (content : Str) (total : Int) (refurb : List (Str × Int)) (st : Stats)
-    (h : timingData content total refurb = .ok st) (m : Str) :
+theorem stats_values (rs : Bool) (content : Str) (total : Int) (refurb : List (Str × Int)) (st : Stats)
+    (h : timingData rs content total refurb = .ok st) (m : Str) :
     get st.refurb m = get (dictOf refurb) m ∧
-    ∃ kvs, parseLines (pySplitlines content) = .ok kvs ∧ get st.mypy m = get (dictOf kvs) m := by
+    ∃ kvs, parseLines rs (pySplitlines content) = .ok kvs ∧ get st.mypy m = get (dictOf kvs) m := by
   unfold timingData at h
-  cases hp : parseLines (pySplitlines content) with
+  cases hp : parseLines rs (pySplitlines content) with
   | error e => rw [hp] at h; cases h
   | ok kvs =>
     rw [hp] at h
@@ -835,6 +842,388 @@ theorem text_form (st : Stats) :
   simp only [renderObj, Stats.data, renderFields, V.render, h1, h2, h3]
   simp
 
+/-! ### cutting a line: `str.split()` (refurb 2.0.0) and `str.rsplit(maxsplit=1)` (now) -/
+
+theorem dropWhile_append_all {p : Char → Bool} {a b : Str} (h : ∀ x ∈ a, p x = true) :
+    (a ++ b).dropWhile p = b.dropWhile p := by
+  induction a with
+  | nil => rfl
+  | cons x a ih =>
+    have hx := h x List.mem_cons_self
+    simp only [List.cons_append, List.dropWhile_cons, hx, if_true]
+    exact ih (fun y hy => h y (List.mem_cons_of_mem _ hy))
+
+theorem takeWhile_append_all {p : Char → Bool} {a b : Str} (h : ∀ x ∈ a, p x = true) :
+    (a ++ b).takeWhile p = a ++ b.takeWhile p := by
+  induction a with
+  | nil => rfl
+  | cons x a ih =>
+    have hx := h x List.mem_cons_self
+    simp only [List.cons_append, List.takeWhile_cons, hx, if_true]
+    rw [ih (fun y hy => h y (List.mem_cons_of_mem _ hy))]
+
+theorem exists_reverse_cons {l : Str} (h : l ≠ []) : ∃ d r, l.reverse = d :: r := by
+  cases hr : l.reverse with
+  | nil => exact absurd (List.reverse_eq_nil_iff.mp hr) h
+  | cons d r => exact ⟨d, r, rfl⟩
+
+/-- A blank line has no fields. -/
+theorem rsplit1_blank (s : Str) (h : ∀ x ∈ s, isPySpace x = true) : pyRsplit1 s = [] := by
+  have : s.reverse.dropWhile isPySpace = [] := by
+    have := dropWhile_append_all (p := isPySpace) (a := s.reverse) (b := []) (by simpa using h)
+    simpa using this
+  simp [pyRsplit1, this]
+
+/-- One run of non-whitespace, whatever whitespace surrounds it, is ONE field (the unpacking
+    `module, micro_seconds = …` then raises `ValueError: not enough values to unpack`). -/
+theorem rsplit1_one (ld us tr : Str) (hl : ∀ x ∈ ld, isPySpace x = true) (hus : us ≠ [])
+    (hu : ∀ x ∈ us, isPySpace x = false) (ht : ∀ x ∈ tr, isPySpace x = true) :
+    pyRsplit1 (ld ++ us ++ tr) = [us] := by
+  obtain ⟨d, u', hd⟩ := exists_reverse_cons hus
+  have hu' : ∀ x ∈ d :: u', notPySpace x = true := by
+    intro x hx
+    have : x ∈ us := by rw [← List.mem_reverse, hd]; exact hx
+    simp [notPySpace, hu x this]
+  have hdn : isPySpace d = false := by
+    have := hu' d List.mem_cons_self
+    simpa [notPySpace] using this
+  have e1 : (ld ++ us ++ tr).reverse = tr.reverse ++ (d :: (u' ++ ld.reverse)) := by
+    simp [List.reverse_append, hd]
+  have e2 : (d :: (u' ++ ld.reverse)) = (d :: u') ++ ld.reverse := rfl
+  have hlr : ∀ x ∈ ld.reverse, isPySpace x = true := by simpa using hl
+  have e3 : ld.reverse.dropWhile isPySpace = [] := by
+    have := dropWhile_append_all (p := isPySpace) (a := ld.reverse) (b := []) hlr
+    simpa using this
+  have e4 : ld.reverse.takeWhile notPySpace = [] := by
+    cases hlr' : ld.reverse with
+    | nil => rfl
+    | cons w w' =>
+      have : isPySpace w = true := hlr w (by simp [hlr'])
+      simp [notPySpace, this]
+  have e5 : ld.reverse.dropWhile notPySpace = ld.reverse := by
+    cases hlr' : ld.reverse with
+    | nil => rfl
+    | cons w w' =>
+      have : isPySpace w = true := hlr w (by simp [hlr'])
+      simp [notPySpace, this]
+  have e6 : (d :: u').reverse = us := by rw [← hd, List.reverse_reverse]
+  unfold pyRsplit1
+  rw [e1, dropWhile_append_all (by simpa using ht), List.dropWhile_cons_of_neg (by simp [hdn])]
+  simp only []
+  rw [e2, takeWhile_append_all hu', dropWhile_append_all hu', e4, e5, e3, List.append_nil, e6]
+  rfl
+
+/-- **The new cut.**  `line.rsplit(maxsplit=1)`: the last run of non-whitespace is the second field; the
+    first field is EVERYTHING before the whitespace in front of it — leading and inner whitespace of the
+    module name included — as long as it ends in a non-whitespace character. -/
+theorem rsplit1_two (m0 : Str) (c : Char) (ws us tr : Str) (hc : isPySpace c = false)
+    (hws : ws ≠ []) (hw : ∀ x ∈ ws, isPySpace x = true)
+    (hus : us ≠ []) (hu : ∀ x ∈ us, isPySpace x = false) (ht : ∀ x ∈ tr, isPySpace x = true) :
+    pyRsplit1 (m0 ++ [c] ++ ws ++ us ++ tr) = [m0 ++ [c], us] := by
+  obtain ⟨d, u', hd⟩ := exists_reverse_cons hus
+  obtain ⟨w, w', hwr⟩ := exists_reverse_cons hws
+  have hu' : ∀ x ∈ d :: u', notPySpace x = true := by
+    intro x hx
+    have : x ∈ us := by rw [← List.mem_reverse, hd]; exact hx
+    simp [notPySpace, hu x this]
+  have hdn : isPySpace d = false := by
+    have := hu' d List.mem_cons_self
+    simpa [notPySpace] using this
+  have hw' : ∀ x ∈ w :: w', isPySpace x = true := by
+    intro x hx
+    exact hw x (by rw [← List.mem_reverse, hwr]; exact hx)
+  have hwn : isPySpace w = true := hw' w List.mem_cons_self
+  have e1 : (m0 ++ [c] ++ ws ++ us ++ tr).reverse =
+      tr.reverse ++ (d :: (u' ++ (w :: (w' ++ c :: m0.reverse)))) := by
+    simp [List.reverse_append, hd, hwr]
+  have e2 : (d :: (u' ++ (w :: (w' ++ c :: m0.reverse)))) = (d :: u') ++ (w :: (w' ++ c :: m0.reverse)) := rfl
+  have e3 : (w :: (w' ++ c :: m0.reverse)) = (w :: w') ++ (c :: m0.reverse) := rfl
+  have e6 : (d :: u').reverse = us := by rw [← hd, List.reverse_reverse]
+  have e7 : (c :: m0.reverse).reverse = m0 ++ [c] := by simp
+  unfold pyRsplit1
+  rw [e1, dropWhile_append_all (by simpa using ht), List.dropWhile_cons_of_neg (by simp [hdn])]
+  simp only []
+  rw [e2, takeWhile_append_all hu', dropWhile_append_all hu',
+    List.takeWhile_cons_of_neg (by simp [notPySpace, hwn]),
+    List.dropWhile_cons_of_neg (by simp [notPySpace, hwn]), e3, dropWhile_append_all hw',
+    List.dropWhile_cons_of_neg (by simp [hc]), List.append_nil, e6, e7]
+  cases m0 <;> rfl
+
+/-- `rsplit(maxsplit=1)` never yields more than two fields (no "too many values to unpack"). -/
+theorem rsplit1_length (s : Str) : (pyRsplit1 s).length ≤ 2 := by
+  unfold pyRsplit1
+  split
+  · simp
+  · split <;> simp
+
+theorem splitAux_run (m cur rest : Str) (h : ∀ x ∈ m, isPySpace x = false) :
+    splitAux cur (m ++ rest) = splitAux (m.reverse ++ cur) rest := by
+  induction m generalizing cur with
+  | nil => rfl
+  | cons x m ih =>
+    have hx := h x List.mem_cons_self
+    simp only [List.cons_append, splitAux, hx, Bool.false_eq_true, if_false]
+    rw [ih _ (fun y hy => h y (List.mem_cons_of_mem _ hy))]
+    simp
+
+/-- **The old cut** on `module<space>number`: two fields when the module name has no whitespace. -/
+theorem split_two (m us : Str) (hm : m ≠ []) (hmm : ∀ x ∈ m, isPySpace x = false)
+    (hus : us ≠ []) (hu : ∀ x ∈ us, isPySpace x = false) :
+    pySplit (m ++ ' ' :: us) = [m, us] := by
+  have hsp : isPySpace ' ' = true := by decide
+  have h1 : (m.reverse ++ ([] : Str)).isEmpty = false := by
+    cases hr : m.reverse with
+    | nil => exact absurd (List.reverse_eq_nil_iff.mp hr) hm
+    | cons a b => rfl
+  have h2 : (us.reverse ++ ([] : Str)).isEmpty = false := by
+    cases hr : us.reverse with
+    | nil => exact absurd (List.reverse_eq_nil_iff.mp hr) hus
+    | cons a b => rfl
+  unfold pySplit
+  rw [splitAux_run m [] _ hmm]
+  simp only [splitAux, hsp, if_true, h1, Bool.false_eq_true, if_false]
+  have := splitAux_run us [] [] hu
+  rw [List.append_nil] at this
+  rw [this]
+  simp only [splitAux, h2, Bool.false_eq_true, if_false]
+  simp
+
+/-! ### `int()` of what mypy writes -/
+
+theorem digitZeros_head : ∃ t, Generated.digitZeros = 48 :: t := ⟨_, rfl⟩
+
+theorem isDigit_range (c : Char) (h : c.isDigit = true) : 48 ≤ c.toNat ∧ c.toNat ≤ 57 := by
+  have := isDigit_printable c h
+  simp only [Char.isDigit, Bool.and_eq_true, decide_eq_true_eq] at h
+  have h1 : (48 : UInt32).toNat ≤ c.val.toNat := UInt32.le_iff_toNat_le.mp h.1
+  have h2 : c.val.toNat ≤ (57 : UInt32).toNat := UInt32.le_iff_toNat_le.mp h.2
+  have e1 : (48 : UInt32).toNat = 48 := by decide
+  have e2 : (57 : UInt32).toNat = 57 := by decide
+  have e3 : c.toNat = c.val.toNat := rfl
+  omega
+
+theorem digitVal_of_isDigit (c : Char) (h : c.isDigit = true) : digitVal c = some (c.toNat - 48) := by
+  obtain ⟨t, ht⟩ := digitZeros_head
+  have hr := isDigit_range c h
+  have : (decide (48 ≤ c.toNat) && decide (c.toNat ≤ 48 + 9)) = true := by
+    simp only [Bool.and_eq_true, decide_eq_true_eq]; omega
+  simp [digitVal, ht, this]
+
+theorem isDigit_not_space (c : Char) (h : c.isDigit = true) : isPySpace c = false := by
+  have hr := isDigit_range c h
+  simp only [isPySpace, Bool.or_eq_false_iff, Bool.and_eq_false_iff, decide_eq_false_iff_not, beq_eq_false_iff_ne]
+  omega
+
+theorem isDigit_not_linebreak (c : Char) (h : c.isDigit = true) : isLineBreak c = false := by
+  have hr := isDigit_range c h
+  simp only [isLineBreak, Bool.or_eq_false_iff, Bool.and_eq_false_iff, decide_eq_false_iff_not, beq_eq_false_iff_ne]
+  omega
+
+theorem char_ne_of_toNat {c d : Char} (h : c.toNat ≠ d.toNat) : c ≠ d := fun e => h (e ▸ rfl)
+
+theorem digitsAux_digits (l : Str) (h : ∀ c ∈ l, c.isDigit = true) (acc n : Nat) (pd : Bool)
+    (hne : l ≠ [] ∨ pd = true) :
+    digitsAux acc n pd l = some (Nat.ofDigitChars 10 l acc, n + l.length) := by
+  induction l generalizing acc n pd with
+  | nil =>
+    rcases hne with h' | h'
+    · exact absurd rfl h'
+    · simp [digitsAux, h']
+  | cons c l ih =>
+    have hc := h c List.mem_cons_self
+    have hr := isDigit_range c hc
+    have hu : c ≠ '_' := char_ne_of_toNat (by have : ('_' : Char).toNat = 95 := rfl; omega)
+    have e48 : ('0' : Char).toNat = 48 := rfl
+    simp only [digitsAux, hu, if_false, digitVal_of_isDigit c hc]
+    rw [ih (fun x hx => h x (List.mem_cons_of_mem _ hx)) _ _ true (Or.inr rfl), Nat.ofDigitChars_cons, e48,
+      Nat.mul_comm acc 10]
+    simp only [List.length_cons]
+    congr 2
+    omega
+
+/-- `int(str(n)) == n` for every non-negative `n` of at most 4300 digits (what mypy writes after the
+    module name: `time_spent_us`, an `int`). -/
+theorem parsePyInt_natChars (n : Nat) (h : (natChars n).length ≤ maxStrDigits) :
+    parsePyInt (natChars n) = some (n : Int) := by
+  have hd : ∀ c ∈ natChars n, c.isDigit = true := fun c hc =>
+    Nat.isDigit_of_mem_toDigits (by decide) (by decide) hc
+  have hne : natChars n ≠ [] := Nat.toDigits_ne_nil
+  have hv := digitsAux_digits (natChars n) hd 0 0 false (Or.inl hne)
+  have hval : Nat.ofDigitChars 10 (natChars n) 0 = n := Nat.ofDigitChars_ten_toDigits
+  rw [hval, Nat.zero_add] at hv
+  cases hs : natChars n with
+  | nil => exact absurd hs hne
+  | cons c cs =>
+    have hc : c.isDigit = true := hd c (by simp [hs])
+    have hr := isDigit_range c hc
+    have h1 : c ≠ '-' := char_ne_of_toNat (by have : ('-' : Char).toNat = 45 := rfl; omega)
+    have h2 : c ≠ '+' := char_ne_of_toNat (by have : ('+' : Char).toNat = 43 := rfl; omega)
+    rw [hs] at hv h
+    unfold parsePyInt
+    split
+    rename_i x neg body heq
+    have hb : neg = false ∧ body = c :: cs := by
+      split at heq
+      · rename_i e; simp only [List.cons.injEq] at e; exact absurd e.1 h1
+      · rename_i e; simp only [List.cons.injEq] at e; exact absurd e.1 h2
+      · simp only [Prod.mk.injEq] at heq; exact ⟨heq.1.symm, heq.2.symm⟩
+    obtain ⟨rfl, rfl⟩ := hb
+    have h' : cs.length + 1 ≤ maxStrDigits := by simpa using h
+    simp [hv, h']
+
+/-! ### a line as mypy writes it: `f"{id} {time_spent_us}"` -/
+
+/-- the line `mypy.build.dump_timing_stats` writes for module `m` (without the final `\n`) -/
+def mypyLine (m : Str) (us : Nat) : Str := m ++ ' ' :: natChars us
+
+theorem err_of_toOption_none {α : Type} (x : Except TErr α) (h : x.toOption = none) : x = .error .valueError := by
+  cases x with
+  | error e => cases e; rfl
+  | ok v => cases h
+
+/-- a module name: not empty, last character not whitespace (`a b` for the file `a b.py`; leading and
+    inner whitespace of any kind allowed) -/
+def ModName (m : Str) : Prop := ∃ m0 c, m = m0 ++ [c] ∧ isPySpace c = false
+
+/-- FULL STATEMENT: every line mypy writes — any module name, any count of at most 4300 digits — is cut
+    into exactly that module name and `count // 1000`. -/
+def MypyLinesParse (rs : Bool) : Prop :=
+  ∀ m us, ModName m → (natChars us).length ≤ maxStrDigits →
+    parseLineOf rs (mypyLine m us) = .ok (m, (us : Int) / 1000)
+
+theorem natChars_no_space (n : Nat) : ∀ x ∈ natChars n, isPySpace x = false := fun x hx =>
+  isDigit_not_space x (Nat.isDigit_of_mem_toDigits (by decide) (by decide) hx)
+
+/-- With `rsplit(maxsplit=1)` it HOLDS: a file called `a b.py` (module `a b`), `a  b.py`, ` a.py`,
+    `a\tb.py` … gets its own entry and nothing raises. -/
+theorem mypy_lines_parse_rsplit : MypyLinesParse true := by
+  intro m us ⟨m0, c, hm, hc⟩ hlen
+  have hcut : pyRsplit1 (mypyLine m us) = [m, natChars us] := by
+    have := rsplit1_two m0 c [' '] (natChars us) [] hc (by simp) (by decide) Nat.toDigits_ne_nil
+      (natChars_no_space us) (by simp)
+    subst hm
+    simpa [mypyLine] using this
+  simp [parseLineOf, parseLineR, hcut, parsePyInt_natChars us hlen]
+
+/-- `refurb "a b.py" --timing-stats out.json`: mypy writes the line `a b 1000` -/
+theorem old_cut_three_fields : parseLine (mypyLine "a b".toList 1000) = .error .valueError :=
+  err_of_toOption_none _ (by decide +kernel)
+
+/-- With `split()` (refurb 2.0.0) it FAILS: the line of a module whose name contains a space has three
+    fields, the unpacking raises ValueError and no statistics file is written at all. -/
+theorem mypy_lines_parse_refuted : ¬ MypyLinesParse false := by
+  intro h
+  have := h "a b".toList 1000 ⟨"a ".toList, 'b', rfl, by decide⟩ (by decide)
+  simp only [parseLineOf, Bool.false_eq_true, if_false] at this
+  rw [old_cut_three_fields] at this
+  cases this
+
+/-- What holds of the old shape: module names WITHOUT whitespace are cut correctly. -/
+theorem mypy_lines_parse_partial (m : Str) (us : Nat) (hm : m ≠ []) (hmm : ∀ x ∈ m, isPySpace x = false)
+    (hlen : (natChars us).length ≤ maxStrDigits) :
+    parseLineOf false (mypyLine m us) = .ok (m, (us : Int) / 1000) := by
+  have hcut := split_two m (natChars us) hm hmm Nat.toDigits_ne_nil (natChars_no_space us)
+  simp [parseLineOf, parseLine, mypyLine, hcut, parsePyInt_natChars us hlen]
+
+/-- …and on those module names the two shapes agree, so the fix changed nothing for them. -/
+theorem shapes_agree_without_space (m : Str) (us : Nat) (hm : m ≠ []) (hmm : ∀ x ∈ m, isPySpace x = false)
+    (hlen : (natChars us).length ≤ maxStrDigits) :
+    parseLineOf true (mypyLine m us) = parseLineOf false (mypyLine m us) := by
+  rw [mypy_lines_parse_partial m us hm hmm hlen]
+  apply mypy_lines_parse_rsplit m us _ hlen
+  obtain ⟨d, r, hr⟩ := exists_reverse_cons hm
+  refine ⟨r.reverse, d, ?_, hmm d ?_⟩
+  · rw [← List.reverse_reverse m, hr]; simp
+  · rw [← List.mem_reverse, hr]; exact List.mem_cons_self
+
+/-- The property holds of the line parse exactly when it is the `rsplit(maxsplit=1)` one. -/
+theorem mypy_lines_parse_iff (rs : Bool) : MypyLinesParse rs ↔ rs = true := by
+  cases rs
+  · simp only [Bool.false_eq_true, iff_false]; exact mypy_lines_parse_refuted
+  · simp only [iff_true]; exact mypy_lines_parse_rsplit
+
+/-- For the working tree as the translator probed it (Generated/LifecycleShape.lean). -/
+theorem mypy_lines_parse_now : MypyLinesParse Generated.timingRsplit ↔ Generated.timingRsplit = true :=
+  mypy_lines_parse_iff _
+
+/-! ### a whole file as mypy writes it -/
+
+/-- `dump_timing_stats`: one line per module of the build graph -/
+def mypyFile : List (Str × Nat) → Str
+  | [] => []
+  | (m, us) :: r => mypyLine m us ++ '\n' :: mypyFile r
+
+theorem splitlines_line (l r : Str) (h : ∀ x ∈ l, isLineBreak x = false) :
+    pySplitlines (l ++ '\n' :: r) = l :: pySplitlines r := by
+  induction l with
+  | nil =>
+    have : isLineBreak '\n' = true := by decide
+    simp [pySplitlines, this]
+  | cons c l ih =>
+    have hc := h c List.mem_cons_self
+    have ih' := ih (fun x hx => h x (List.mem_cons_of_mem _ hx))
+    have hcr : c ≠ '\r' := by
+      intro e; subst e
+      have : isLineBreak '\r' = true := by decide
+      rw [this] at hc; cases hc
+    rw [List.cons_append]
+    conv => lhs; unfold pySplitlines
+    split
+    · rename_i heq; cases heq
+    · rename_i heq; simp only [List.cons.injEq] at heq; exact absurd heq.1 hcr
+    · rename_i c' r' _ heq
+      simp only [List.cons.injEq] at heq
+      obtain ⟨rfl, rfl⟩ := heq
+      simp only [hc, Bool.false_eq_true, if_false]
+      rw [ih']
+
+theorem mypyLine_no_linebreak (m : Str) (us : Nat) (h : ∀ x ∈ m, isLineBreak x = false) :
+    ∀ x ∈ mypyLine m us, isLineBreak x = false := by
+  intro x hx
+  simp only [mypyLine, List.mem_append, List.mem_cons] at hx
+  rcases hx with hx | rfl | hx
+  · exact h x hx
+  · decide
+  · exact isDigit_not_linebreak x (Nat.isDigit_of_mem_toDigits (by decide) (by decide) hx)
+
+/-- the modules of a build graph: names as in `ModName`, without line boundaries, counts `int()` accepts -/
+def GraphOk (mods : List (Str × Nat)) : Prop :=
+  ∀ p ∈ mods, ModName p.1 ∧ (∀ x ∈ p.1, isLineBreak x = false) ∧ (natChars p.2).length ≤ maxStrDigits
+
+theorem parseLines_mypyFile (mods : List (Str × Nat)) (h : GraphOk mods) :
+    parseLines true (pySplitlines (mypyFile mods)) = .ok (mods.map (fun p => (p.1, (p.2 : Int) / 1000))) := by
+  induction mods with
+  | nil => rfl
+  | cons p r ih =>
+    obtain ⟨m, us⟩ := p
+    obtain ⟨hm, hlb, hlen⟩ := h (m, us) List.mem_cons_self
+    have ih' := ih (fun q hq => h q (List.mem_cons_of_mem _ hq))
+    simp only [mypyFile, List.map_cons]
+    rw [splitlines_line _ _ (mypyLine_no_linebreak m us hlb)]
+    simp only [parseLines, mypy_lines_parse_rsplit m us hm hlen, ih']
+
+/-- **mypy_file_never_raises.**  With `rsplit(maxsplit=1)`, for a build graph of ANY size and ANY file
+    names (spaces, tabs, non-ASCII; only line boundaries inside a name are excluded), reading back the file
+    mypy wrote never raises, the statistics are produced, and the mypy section has an entry for exactly the
+    modules of the graph. -/
+theorem mypy_file_never_raises (mods : List (Str × Nat)) (h : GraphOk mods) (total : Int)
+    (refurb : List (Str × Int)) :
+    ∃ st, timingData true (mypyFile mods) total refurb = .ok st ∧
+      (∀ x, x ∈ keys st.mypy ↔ x ∈ mods.map Prod.fst) ∧
+      otsOf true true (mypyFile mods) true = .ok := by
+  have hp := parseLines_mypyFile mods h
+  refine ⟨_, by simp only [timingData, hp]; rfl, ?_, by simp [otsOf, hp]⟩
+  intro x
+  simp only []
+  rw [mem_keys_byValueDesc, mem_keys_dictOf]
+  simp [List.map_map, Function.comp_def]
+
+/-- …and the same graph with one file called `a b.py` makes the old code raise: nothing is written. -/
+theorem old_shape_raises_on_space :
+    timingJson false (mypyFile [("builtins".toList, 109500), ("a b".toList, 1000)]) 0 [] = .error .valueError ∧
+    otsOf false true (mypyFile [("builtins".toList, 109500), ("a b".toList, 1000)]) true = .valueError :=
+  ⟨err_of_toOption_none _ (by decide +kernel), by decide +kernel⟩
+
 /-! ## Non-vacuity -/
 
 def sampleOk : Scenario :=
@@ -852,13 +1241,37 @@ example : ∃ r, Event.build r ∈ run false leakCompileError := ⟨.compileErro
 def sampleFile : Str := "builtins 109500\na 999\nb 2000\na 3100\n".toList
 def sampleRefurb : List (Str × Int) := [("b".toList, 0), ("a".toList, 4), ("b".toList, 7), ("c".toList, 4)]
 
-example : (timingJson sampleFile 1203 sampleRefurb).toOption = some
+example : (timingJson true sampleFile 1203 sampleRefurb).toOption = some
     ("{\"mypy_total_time_spent_in_ms\":1203,\"mypy_time_spent_parsing_modules_in_ms\":{\"builtins\":109,\"a\":3,\"b\":2}," ++
      "\"refurb_time_spent_checking_file_in_ms\":{\"b\":7,\"a\":4,\"c\":4}}").toList := by decide +kernel
-example : (timingJson "a 1\nb\n".toList 0 []).toOption = none := by decide +kernel
-example : (timingJson "a -1\n".toList 0 []).toOption =
+example : (timingJson true "a 1\nb\n".toList 0 []).toOption = none := by decide +kernel
+example : (timingJson false "a -1\n".toList 0 []).toOption =
     some ("{\"mypy_total_time_spent_in_ms\":0,\"mypy_time_spent_parsing_modules_in_ms\":{\"a\":-1}," ++
          "\"refurb_time_spent_checking_file_in_ms\":{}}").toList := by decide +kernel
-example : otsOf true sampleFile true = .ok := by decide +kernel
+example : pyRsplit1 "  a  b   12 ".toList = ["  a  b".toList, "12".toList] := by decide +kernel
+example : pyRsplit1 "a\tb\u3000c  7\u00a0".toList = ["a\tb\u3000c".toList, "7".toList] := by decide +kernel
+example : pyRsplit1 "  a  ".toList = ["a".toList] := by decide +kernel
+example : pyRsplit1 " \t ".toList = [] := by decide +kernel
+example : pySplit "  a  b   12 ".toList = ["a".toList, "b".toList, "12".toList] := by decide +kernel
+example : (parseLineR "a b 1 2000".toList).toOption = some ("a b 1".toList, 2) := by decide +kernel
+example : (parseLineR "a".toList).toOption = none := by decide +kernel
+example : (parseLineR "a b".toList).toOption = none := by decide +kernel
+
+def sampleGraph : List (Str × Nat) := [("builtins".toList, 109500), ("a b".toList, 1000), (" x\ty  z".toList, 0), ("日 本".toList, 2999)]
+
+example : GraphOk sampleGraph := by
+  intro p hp
+  simp only [sampleGraph, List.mem_cons, List.not_mem_nil, or_false] at hp
+  rcases hp with rfl | rfl | rfl | rfl
+  · exact ⟨⟨"builtin".toList, 's', rfl, by decide⟩, by decide, by decide⟩
+  · exact ⟨⟨"a ".toList, 'b', rfl, by decide⟩, by decide, by decide⟩
+  · exact ⟨⟨" x\ty  ".toList, 'z', rfl, by decide⟩, by decide, by decide⟩
+  · exact ⟨⟨"日 ".toList, '本', rfl, by decide⟩, by decide, by decide⟩
+example : (timingJson true (mypyFile sampleGraph) 7 []).toOption = some
+    ("{\"mypy_total_time_spent_in_ms\":7,\"mypy_time_spent_parsing_modules_in_ms\":{\"builtins\":109,\"\\u65e5 \\u672c\":2,\"a b\":1,\" x\\ty  z\":0}," ++
+     "\"refurb_time_spent_checking_file_in_ms\":{}}").toList := by decide +kernel
+example : (timingJson false (mypyFile sampleGraph) 7 []).toOption = none := by decide +kernel
+example : otsOf true true sampleFile true = .ok := by decide +kernel
+example : otsOf false true sampleFile true = .ok := by decide +kernel
 
 end RefurbVerif.C18
